@@ -43,6 +43,14 @@ Definition get_open (fs : list (string * semtype)) (k : string) : semtype :=
 
 Definition indexed_unsupported {A} : res A := Throw (EInternal "index signature: outside the modelled part of mapping.rs").
 
+(* get_effective_index_value: the key type minus the declared keys, one difference per key *)
+Definition sem_str_const (k : string) : semtype := mkSem 0 [PString true [STpl [TplConst k]]].
+Fixpoint minus_keys (t : semtype) (ks : list string) : res semtype :=
+  match ks with
+  | [] => Ok t
+  | k :: ks' => do d <- sem_diff t (sem_str_const k); minus_keys d ks'
+  end.
+
 Section MLevel.
   (* emptiness of field types (one level down) *)
   Variable is_empty : semtype -> res bool.
@@ -68,12 +76,14 @@ Section MLevel.
     end.
 
   (* step 5 of check_mapping_empty for an index-free positive against an index-free negative:
-     pos_key = never, neg_key = string, so the negative's index value is make_optional(unknown), and the positive's is
-     optional_prop; the difference is computed and tested like the code does *)
-  Definition index_dimension_is_covered : res bool :=
-    do s <- sem_diff sem_never sem_string;
-    do sub <- is_empty s;
-    do vn <- (if sub then sem_union sem_unknown sem_optional_prop else Ok sem_unknown);
+     the keys the positive may carry beyond the declared ones are pos_key = never minus the declared keys of both sides;
+     neg_key = string: the key types do not overlap, so the negative imposes no constraint (unknown), and the positive's index
+     value is optional_prop; the differences and the intersection are computed and tested like the code does *)
+  Definition index_dimension_is_covered (declared : list string) : res bool :=
+    do free <- minus_keys sem_never declared;
+    do s <- sem_intersect free sem_string;
+    do disjoint <- is_empty s;
+    do vn <- (if negb disjoint then sem_union sem_unknown sem_optional_prop else Ok sem_unknown);
     do d <- sem_diff sem_optional_prop vn;
     is_empty d.
 
@@ -90,7 +100,7 @@ Section MLevel.
                                     if e then Ok true else check_mapping_empty rest (field_insert k diff pos))
                                  (all_keys pos neg);
         if negb covered then Ok false else
-        do idx <- index_dimension_is_covered;
+        do idx <- index_dimension_is_covered (keys pos ++ keys neg);
         if idx then Ok true else indexed_unsupported
     end.
 
